@@ -195,6 +195,7 @@ static int run_one(const BlocksShape &sh, SimConfig cfg, bool have_cfg, Prng *r)
 }
 
 int main(int argc, char **argv) {
+  disable_aslr(argv);
   setvbuf(stdout, nullptr, _IOLBF, 0);
   sim_set_fatal_cb(on_fatal);
   install_death_cb(&g_spec);
